@@ -281,11 +281,13 @@ def valEndIndex (src : Str) : Nat :=
   | some k => k
   | none => src.length
 
+/-- `hasQuotePrefix` -/
+def quotePrefix : Str → Option Char
+  | c :: _ => if c == '"' || c == '\'' then some c else none
+  | [] => none
+
 def extractValue (src : Str) (envMap : Map) (lookup : Env) : Stage (Str × Str) :=
-  let quoted : Option Char := match src with
-    | c :: _ => if c == '"' || c == '\'' then some c else none
-    | [] => none
-  match quoted with
+  match quotePrefix src with
   | none =>
     let line := (cut ['\n'] src).1
     let rest := (cut ['\n'] src).2
